@@ -1,5 +1,6 @@
 SPECIFICATION Spec
 CONSTANTS
   Programs <- SmallPrograms
+  JoinRef = "moves"
 INVARIANTS TypeOK Quiescent BodyOnce UnstartedNeverRuns ArgsFreedOnce FrameFreedOnce BalanceZeroAtEnd
-  ResolveBeforeDestroy DeliveredToBoundOnly ObserveReady ClaimedPromiseLeavesUnstarted JoinReturns CleanEnd CallbackOnce PayloadIntact
+  ResolveBeforeDestroy DeliveredToBoundOnly ObserveReady ClaimedPromiseLeavesUnstarted JoinReturns CleanEnd CallbackOnce PayloadIntact ReferentIntact
